@@ -66,12 +66,13 @@ class Spelling:
         self.link_style = r.choice(['inline', 'inline', 'ref', 'implicit'])
         self.emph = r.choice('*_')
         self.trailing_blank = r.choice([1, 2])
+        self.math = r.choice(['paren', 'paren', 'dollar'])      # \\( x \\) or $x$
         self.quote_lazy = False
         self.__dict__.update(kw)
 
 
 DEFAULT = Spelling(random.Random(1), bullet='*', lead=0, closing=0, setext=False, eol='\n', first_num=1, rule='***', fence=3,
-                   title_q='"', link_style='inline', emph='*', trailing_blank=1)
+                   title_q='"', link_style='inline', emph='*', trailing_blank=1, math='paren')
 
 
 def _title(sp, t):
@@ -128,6 +129,8 @@ class Serializer:
         if k == 'autolink':
             return '<%s>' % n.url
         if k == 'math':
+            if sp.math == 'dollar':
+                return '$' + n.s + '$'
             return '\\\\(' + n.s + '\\\\)'
         if k == 'sup':
             return '^' + n.s + '^'
@@ -319,6 +322,13 @@ class Gen:
                 out.append(Text(self.words()))
                 continue
             if node is not None:
+                if 'adjacent' in allow and node.kind in ('emph', 'strong', 'code', 'link', 'math', 'image') and r.random() < 0.3:
+                    # punctuation directly before and after the construct instead of spaces
+                    o, c = r.choice([('(', ')'), ('(', '),'), ('(', ').'), ('/', '/'), ('(', ');')])
+                    out.append(Text(' ' + o))
+                    out.append(node)
+                    out.append(Text(c + ' ' + self.words(1, 3)))
+                    continue
                 out.append(Text(' '))
                 out.append(node)
                 out.append(Text(' ' + self.words(1, 3)))
@@ -358,8 +368,13 @@ class Gen:
             for _ in range(r.randint(1, 4)):
                 if tight:
                     it = [Para(self.inlines(maxn=2))]
-                    if r.random() < 0.25 and depth < 2:
+                    q = r.random()
+                    if q < 0.25 and depth < 2:
                         it.append(List(r.random() < 0.5, True, [[Para(self.inlines(maxn=1))] for _ in range(r.randint(1, 2))]))
+                    elif q < 0.33 and depth < 2 and 'tight-children' in f:
+                        it.append(Quote([Para(self.inlines(maxn=1))]))
+                    elif q < 0.40 and depth < 2 and 'tight-children' in f and 'indented-only' not in f:
+                        it.append(CodeBlock(['code %s();' % self.word('c')], None, True))
                 else:
                     it = [Para(self.inlines(maxn=2))] + ([self.block(depth + 1)] if r.random() < 0.4 else [])
                 items.append(it)
